@@ -267,6 +267,7 @@ class Flwdir(object):
             in combination with idx, by default None.
         """
         idxs1 = self._check_idxs_xy(idxs, streams=streams)
+        idxs1 = np.asarray(idxs1).astype(self.idxs_ds.dtype)
         # add pits
         self.idxs_ds[idxs1] = idxs1
         self._pit = np.unique(np.concatenate([self.idxs_pit, idxs1]))
